@@ -142,6 +142,8 @@ def check_C03(tier, seed):
     run_relational(out, "C03", tier)
     from .checks_stock_traces import run_stock_traces
     run_stock_traces(out, "C03", tier)
+    from .checks_stock_l2 import run_l2
+    run_l2(out, "C03", tier)
     out.assumptions += COMMON_ASSUMPTIONS + [
         "scipy-based lifetime models enter through the relational run: conservation is evaluated on the implementation's outputs"]
     return out.finish(rule="one vector per (configuration, stock class, driver); TLC computes all tables as exact rationals and checks "
@@ -155,6 +157,8 @@ def check_C09(tier, seed):
     run_relational(out, "C09", tier)
     from .checks_stock_traces import run_stock_traces
     run_stock_traces(out, "C09", tier)
+    from .checks_stock_l2 import run_l2
+    run_l2(out, "C09", tier)
     out.assumptions += COMMON_ASSUMPTIONS
     return out.finish(rule="as C03; Prop_C09 (totals, triangularity, cohort share, cohort conservation, monotonicity) TLC-checked on the model; "
                            "get_stock_by_cohort / get_outflow_by_cohort compared with the exact tables")
@@ -167,6 +171,8 @@ def check_C10(tier, seed):
     run_relational(out, "C10", tier)
     from .checks_stock_traces import run_stock_traces
     run_stock_traces(out, "C10", tier)
+    from .checks_stock_l2 import run_l2
+    run_l2(out, "C10", tier)
     out.assumptions += COMMON_ASSUMPTIONS + ["stock-driven vectors only for tables whose diagonal is non-zero (Solvable)"]
     return out.finish(rule="stock-driven vectors: the prescribed stock is the inflow-driven stock of an integer inflow; Prop_C10 (inverse) "
                            "TLC-checked; both solvers replayed")
